@@ -205,7 +205,7 @@ func c05Reference(specs []c05HandlerSpec, subject string) (marker, code string, 
 	}
 	var routes []ref.Route
 	for k, sp := range specs {
-		routes = append(routes, ref.Route{Pattern: "test." + sp.Pattern, Marker: fmt.Sprint(k)})
+		routes = append(routes, ref.Route{Pattern: mergeDots("test", sp.Pattern), Marker: fmt.Sprint(k)})
 	}
 	for _, rt := range routes {
 		if _, ok := ref.Match(rt.Pattern, rname); ok {
@@ -264,7 +264,7 @@ func c05Reference(specs []c05HandlerSpec, subject string) (marker, code string, 
 	return "", "", true, rname, method, params, candidates
 }
 
-var c05PatternPool = []string{"a", "a.set", "a.$id", "a.>", "a.$id.set", "a.$id.$sub", "b", "b.*", "a.new", "a.$id.new", "$any"}
+var c05PatternPool = []string{"a", "a.set", "a.$id", "a.>", "a.$id.set", "a.$id.$sub", "b", "b.*", "a.new", "a.$id.new", "$any", "", ">", ""}
 var c05RNames = []string{"test.a", "test.a.set", "test.a.x", "test.a.x.set", "test.a.x.y", "test.a.x.y.z", "test.b", "test.b.set", "test", "test.a.new", "test.a.x.new", "test.q", "test.a.*"}
 var c05Methods = []string{"set", "new", "foo", "login", "x"}
 
@@ -428,6 +428,34 @@ func c05CheckFields(c *core.Ctx, sn c05Snap, sent c05Sent, desc map[string]inter
 	}
 }
 
+// c05Corrupt turns a valid request payload into a text that is not JSON
+// (decided by encoding/json's validator): trailing or leading garbage, a second
+// value, truncation, a damaged character.
+func c05Corrupt(r *rand.Rand) string {
+	pl, _ := c05BuildPayload(r, r.Intn(64))
+	if len(bytes.TrimSpace(pl)) == 0 {
+		pl = []byte(`{"cid":"abc","params":{"a":1}}`)
+	}
+	var m []byte
+	switch r.Intn(6) {
+	case 0, 1:
+		m = append(append([]byte{}, pl...), []string{"}", "]", " xyz", "{", "{}", ",", "\"", " 0", " null", "\n}", "\x00"}[r.Intn(11)]...)
+	case 2:
+		m = append([]byte([]string{"x", "}", ",", "\xef\xbb\xbf", "0 "}[r.Intn(5)]), pl...)
+	case 3:
+		m = append([]byte{}, pl[:1+r.Intn(len(pl)-1)]...)
+	case 4:
+		m = append([]byte{}, pl...)
+		m[r.Intn(len(m))] = "'\\,:}x"[r.Intn(6)]
+	default:
+		m = bytes.Replace(pl, []byte(`:`), []byte(`=`), 1)
+	}
+	if json.Valid(m) || len(bytes.TrimSpace(m)) == 0 {
+		return ""
+	}
+	return string(m)
+}
+
 func c05Run(c *core.Ctx, b core.Batch) {
 	var p c05Params
 	json.Unmarshal(b.Params, &p)
@@ -573,7 +601,14 @@ func c05Run(c *core.Ctx, b core.Batch) {
 						}
 					}
 				}
-				for _, bad := range []string{`{"cid":`, `nope`, `{"cid":5}`, `[]`} {
+				bads := []string{`{"cid":`, `nope`, `{"cid":5}`, `[]`}
+				// texts that are not JSON although they start with (or contain) a complete JSON value
+				for k := 0; k < 4; k++ {
+					if m := c05Corrupt(r); m != "" {
+						bads = append(bads, m)
+					}
+				}
+				for _, bad := range bads {
 					if ok = one([]string{"get.", "access.", "call.", "auth."}[r.Intn(4)]+rn+[]string{"", ".set"}[r.Intn(2)], []byte(bad), nil, true); !ok {
 						break outer
 					}
@@ -584,13 +619,13 @@ func c05Run(c *core.Ctx, b core.Batch) {
 			}
 		} else {
 			// every subset of the nine fields, on each request type
-			subjects := []string{"access.test." + specs[0].patternInstance(), "get.test." + specs[0].patternInstance()}
+			subjects := []string{"access." + mergeDots("test", specs[0].patternInstance()), "get." + mergeDots("test", specs[0].patternInstance())}
 			for _, sp := range specs {
 				if len(sp.Call) > 0 {
-					subjects = append(subjects, "call.test."+sp.patternInstance()+"."+strings.Replace(sp.Call[0], "*", "any", 1))
+					subjects = append(subjects, "call."+mergeDots("test", sp.patternInstance())+"."+strings.Replace(sp.Call[0], "*", "any", 1))
 				}
 				if len(sp.Auth) > 0 {
-					subjects = append(subjects, "auth.test."+sp.patternInstance()+"."+strings.Replace(sp.Auth[0], "*", "any", 1))
+					subjects = append(subjects, "auth."+mergeDots("test", sp.patternInstance())+"."+strings.Replace(sp.Auth[0], "*", "any", 1))
 				}
 			}
 			sort.Strings(subjects)
